@@ -173,9 +173,16 @@ theorem handleBlocking_refused (dt : String) (c : Cmd) (har : cfg.activeRedirect
 
 /-- EVAL with `numkeys ≠ 1` whose listed keys are not in one slot: refused in both modes -/
 theorem handleEval_refused (rt : Option Nat) (c : Cmd) (kn : Bytes) (n : Nat) (h2 : elem c 2 = some kn)
-    (hn : btoiU u64Max kn = some n) (h1 : n ≠ 1) (h : sameSlot (evalKeys n c) = false) :
+    (hn : btoiU u64Max kn = some n) (hle : n ≤ c.length) (h1 : n ≠ 1) (h : sameSlot (evalKeys n c) = false) :
     handleEval cfg cm backend rt c = refused := by
-  simp [handleEval, h2, hn, h1, h, refused]
+  have : ¬ n > c.length := by omega
+  simp [handleEval, h2, hn, h1, h, refused, this]
+
+/-- `numkeys` beyond the argument count (/repo 2c9766f): refused before anything else -/
+theorem handleEval_too_many (rt : Option Nat) (c : Cmd) (kn : Bytes) (n : Nat) (h2 : elem c 2 = some kn)
+    (hn : btoiU u64Max kn = some n) (hgt : n > c.length) :
+    (handleEval cfg cm backend rt c).dispatched = [] ∧ ∃ e, (handleEval cfg cm backend rt c).reply = .error e := by
+  simp [handleEval, h2, hn, hgt]
 
 /-! ## every dispatched (sub-)command is routed -/
 
